@@ -12,6 +12,9 @@ type SubPlan struct {
 	Before bool `json:"before,omitempty"` // PostProcessBeforeInitialization returns a wrapper
 	After  bool `json:"after,omitempty"`  // PostProcessAfterInitialization returns a wrapper
 	Same   bool `json:"same,omitempty"`   // After re-uses the wrapper made earlier (if any)
+	// SameType: the substitute is a fresh instance of the component's own concrete type (a decorated
+	// copy), so it can also stand in for *T fields; otherwise it is a *Wrap.
+	SameType bool `json:"same_type,omitempty"`
 }
 
 // Substituter is a harness SmartInstantiationAware post-processor that substitutes chosen
@@ -30,17 +33,40 @@ func NewSubstituter(plan map[string]SubPlan) *Substituter {
 }
 
 func (s *Substituter) Naming() string { return "verif.substituter" }
+func (s *Substituter) Bind(r *Run)    { s.Run = r }
 
 func (s *Substituter) wrap(c any, name string, reuse bool) any {
 	if reuse && len(s.Made[name]) > 0 {
-		return s.Made[name][len(s.Made[name])-1]
+		last := s.Made[name][len(s.Made[name])-1]
+		if last.Copy != nil {
+			return last.Copy
+		}
+		return last
 	}
 	orig := c
 	if w, ok := c.(*Wrap); ok {
 		orig = w.Orig
+	} else if s.Run != nil {
+		if w, ok := s.Run.SubInfo[c]; ok {
+			orig = w.Orig
+		}
 	}
 	w := &Wrap{Orig: orig, OrigName: name, Version: len(s.Made[name]) + 1}
 	s.Made[name] = append(s.Made[name], w)
+	if p := s.Plan[name]; p.SameType {
+		if n, ok := orig.(Node); ok {
+			// decorated copy of the same concrete type
+			cp := Palette[n.TypeIdx()].New()
+			*cp.Core() = *n.Core()
+			cp.Core().Log = nil // the copy's callbacks are not part of the scenario's event log
+			cp.Core().Fails, cp.Core().FailOnce, cp.Core().Hook = nil, nil, nil
+			w.Copy = cp
+			if s.Run != nil {
+				s.Run.SubInfo[cp] = w
+			}
+			return cp
+		}
+	}
 	return w
 }
 
